@@ -287,6 +287,12 @@ def instance_doc(case):
         # a block annotation declares a custom routing target for this document
         body.append({"t": "block", "key": "ARCHIVE", "target": "AUDIT_LOG", "lead": [], "tail": [],
                      "kids": [{"t": "assign", "key": "X", "value": {"v": "int", "i": "1"}, "lead": [], "trail": None}]})
+    if case.get("zone_field") is not None:
+        # a field holding a literal zone, judged by LANG[...] (tag comparison is case-insensitive): validation reads the tag,
+        # it must not rewrite it
+        tag = ["Python", "JSON", "python", "Bash", "PYTHON", None][case["zone_field"] % 6]
+        body[0]["kids"].append({"t": "assign", "key": "SNIPPET", "lead": [], "trail": None,
+                                "value": {"v": "zone", "content": "x = {1}\n  y -> z", "tag": tag, "fence": "```"}})
     if case.get("extra_top"):
         body.append({"t": "assign", "key": "OTHER", "value": {"v": "str", "s": "x -> y", "cls": "hostile"}, "lead": ["a note"], "trail": None})
     return {"name": "INSTANCE", "sentinel": None, "frontmatter": None, "meta": [["TYPE", {"v": "str", "s": "T", "cls": "word"}]], "sep": False,
@@ -304,6 +310,8 @@ def check_generated(case, root):
         flds = [(f, list(c)) for f, c in case["fields"]]
         if case.get("routes_to_target") and flds:
             flds[0] = (flds[0][0], flds[0][1][:-1] + [flds[0][1][-1] + "→§AUDIT_LOG"])  # the first field routes to a custom target
+        if case.get("zone_field") is not None:
+            flds.append(("SNIPPET", ["OPT", ["LANG[python]", "LANG[json]", "TYPE[LITERAL]", "LANG[Python]"][case["zone_field"] % 4]]))
         fh.write(c08.schema_text(name, case["policy"], flds))
     doc = instance_doc(case)
     if not doc["body"][0]["kids"]:
@@ -334,7 +342,7 @@ def shard_generated(ctx: Ctx, sh: int, nshards: int, n: int) -> Stats:
             i = counter[0]
             counter[0] += 1
             case = {**base, "kind": "generated", "seeds": [(ctx.shard_seed(sh) + 17 * i + j) % (2**31) for j in range(2)],
-                    "with_write": i % 3 == 0, "extra_top": i % 2 == 0, "routes_to_target": i % 4 == 1, "declares_target": i % 5 in (1, 2)}
+                    "with_write": i % 3 == 0, "extra_top": i % 2 == 0, "routes_to_target": i % 4 == 1, "declares_target": i % 5 in (1, 2), "zone_field": (i // 3) % 12 if i % 3 == 1 else None}
             fails, nt, texts = check_generated(case, root)
             if not texts:
                 return
@@ -366,6 +374,8 @@ def shrink_candidates(case):
             yield {**c, "kind": "generated"}
         if case.get("extra_top"):
             yield {**case, "extra_top": False}
+        if case.get("zone_field") is not None:
+            yield {**case, "zone_field": None}
 
 
 def run(ctx: Ctx) -> Stats:
